@@ -2,6 +2,7 @@
 C18 — server discovery yields each wanted server exactly once.
 -/
 import DtailModel.Lemmas.Discovery
+import DtailModel.Lemmas.GenDiscovery
 namespace Dtail.C18
 open Dtail
 variable {α : Type} [DecidableEq α]
@@ -34,5 +35,41 @@ theorem C18_dedup (l : List α) :
 /-- non-vacuity: a list with duplicates and valid indices -/
 example : validIdx (dedup [] [3, 1, 3, 2, 1]).length [2, 0, 0] = true ∧
     serverList [3, 1, 3, 2, 1] (some (fun x => x != 1)) [1, 0] = some [2, 3] := by decide
+
+/-! ### Tie G: internal/discovery/discovery.go as translated from the working tree on this run -/
+
+open Dtail.Go Dtail.Gen.Discovery in
+/-- `filterList`, `dedupList` and `shuffleList` of the working tree are the model's filter, `dedup` and
+    `shuffle` (the random source is the list of numbers its `Intn` calls return) -/
+theorem C18_generated_steps_refine_model (ext : Ext) (d : Discovery) (servers : List Bytes) :
+    Discovery.filterList ext d servers = (d, servers.filter (ext.reMatchRaw d.regex)) ∧
+    Discovery.dedupList ext d servers = (d, dedup [] servers) ∧
+    (∀ (rs : List Nat) (out : List Bytes), ext.randNew = ⟨rs.map fun (n : Nat) => (n : Int)⟩ →
+      validIdx servers.length rs = true → shuffle servers rs = some out → Discovery.shuffleList ext d servers = (d, out)) :=
+  ⟨GenDiscovery.filterList_refines ext d servers, GenDiscovery.dedupList_refines ext d servers,
+   fun rs out hr hv hs => GenDiscovery.shuffleList_refines ext d servers rs out hr hv hs⟩
+
+open Dtail.Go Dtail.Gen.Discovery in
+/-- **`Discovery.ServerList()` as translated from the working tree contacts each wanted server exactly once**:
+    for every list the source module delivers, every filter expression, and every sequence of numbers
+    `Intn(len)` can return while the list shrinks, the result is a permutation of the distinct entries that
+    pass the filter — each once, none invented, none lost. -/
+theorem C18_generated_server_list (ext : Ext) (d : Discovery) (rs : List Nat)
+    (hr : ext.randNew = ⟨rs.map fun (n : Nat) => (n : Int)⟩) (ho : d.order = Shuffle)
+    (hv : validIdx (dedup [] (wanted (ext.strList (b!"serverListFromModule")) (GenDiscovery.filterOf ext d))).length rs = true) :
+    ∃ out, Discovery.ServerList ext d = (d, out)
+      ∧ out.Perm (dedup [] (wanted (ext.strList (b!"serverListFromModule")) (GenDiscovery.filterOf ext d)))
+      ∧ out.Nodup
+      ∧ ∀ x, x ∈ out ↔ x ∈ wanted (ext.strList (b!"serverListFromModule")) (GenDiscovery.filterOf ext d) := by
+  obtain ⟨out, hs, hp, hn, hm⟩ := C18_full_holds (ext.strList (b!"serverListFromModule")) (GenDiscovery.filterOf ext d) rs hv
+  exact ⟨out, GenDiscovery.ServerList_refines ext d rs out hr ho hv hs, hp, hn, hm⟩
+
+open Dtail.Go Dtail.Gen.Discovery in
+/-- the hypotheses are satisfiable: three entries with a duplicate, a filter, valid draws -/
+example :
+    let ext : Ext := { parseFloat := fun _ => (0, none), randNew := ⟨[1, 0]⟩,
+                       strList := fun _ => [b!"a", b!"b", b!"a", b!"c"],
+                       reMatchRaw := fun _ s => s != b!"b" }
+    Discovery.ServerList ext { regex := ⟨b!"x", true⟩ } = ({ regex := ⟨b!"x", true⟩ }, [b!"c", b!"a"]) := by decide
 
 end Dtail.C18
